@@ -5,9 +5,15 @@ import vlib
 _NOTE = ("Trusted: Coq 8.16.1 kernel; extraction (ExtrOcamlBasic) + OCaml 4.13.1; the hand-written model Dbc/Compile.v "
          "(collectDescriptors, addMetadata with warnings, sortDescriptors; uint8()/int64(float)/Duration conversions written "
          "out; sort.Slice = insertion sort, exact for n <= 12 and, under the class's distinct keys, for every n), validated "
-         "against generate.Compile on every run; the DBC parser is NOT part of this property (the model starts from "
-         "Parser.Defs(), dumped by the harness); Go harness / OCaml driver / check.py glue. "
-         "Print Assumptions: closed under the global context (no axioms). Stdlib only, no Flocq: floats are bit patterns.")
+         "against generate.Compile on every run; the parser model Dbc/Parser.v (+ Scanner.v, DecFloat.v; proved and tied to "
+         "pkg/dbc by C04/C12) through which the SOURCE TEXT is the reference: compile_text = parser model ; compile model "
+         "is compared with generate.Compile on the text (original order of every file + every 32nd reordering; the other "
+         "texts start from Parser.Defs(), dumped by the harness); Go harness / OCaml driver / check.py glue. "
+         "Print Assumptions: closed under the global context (no axioms). Stdlib only, no Flocq: floats are bit patterns. "
+         "Not expressible in the model and therefore outside the theorems: INT attribute values are routed through float64 "
+         "by Parser.int() (model and code agree); a literal with more than 53 significant bits (|v| > 2^53) is rounded by "
+         "both, so 'the value written in the source' holds exactly only for values that are exact in float64 (all integers "
+         "up to 2^53; class files use only such values; wild files compare the rounding).")
 
 PROPERTIES = {
     "C05": {
@@ -16,18 +22,30 @@ PROPERTIES = {
                 "is canonically ordered; warnings are exactly those of the specification and warned-about lines are attached "
                 "to nothing; any reordering of messages, signals inside a message and resolved metadata lines (indeed any "
                 "permutation of the definitions) compiles to the same database, warnings equal as multisets; the pre-fix "
-                "comparator is refuted (F10, fixed in /repo). The model is tied to internal/generate on every run: generated "
+                "comparator is refuted (F10, fixed in /repo). END TO END (C05_text_*): for every source file that is "
+                "well-formed in the sense of C04's round-trip theorem and in the compile class, compile_text (parser model, "
+                "then compile model) of the printed TEXT is Some (sorted denoted database of the source, specified warnings) "
+                "- the text, not some parser's output, is the reference. The model is tied to internal/generate on every run: generated "
                 "class files x all/24 permutations, model = generate.Compile, and canonical / denotes / warnings / "
-                "order-independence evaluated on the implementation's own outputs.",
+                "order-independence evaluated on the implementation's own outputs; the texts are also parsed by the extracted "
+                "parser model, and denotes / warnings are evaluated against the definitions the TEXT denotes whenever "
+                "Parser.Defs() differs from them (clauses text_denotes, text_warnings_exact; the first differing definition "
+                "localises the fault: parser or compiler).",
         "note": _NOTE + " Files and permutations are sampled (exhaustive permutations for <= 4 items).",
         "technique": "Coq proof about a Gallina model + differential correspondence of model and code",
         "design_ref": "5.5",
     },
 }
 
-RULE = ("seeded generator of DESIGN 4.2 files (1..20 nodes, 0..22 messages standard/extended, 0..12 signals incl. "
-        "multiplexer/multiplexed with shared start bits, VAL_/CM_/SIG_VALTYPE_/BA_ for the four attributes in all spellings, "
-        "metadata for undeclared nodes/messages/signals, ignored forms, the pseudo message); each file compiled in the original "
+RULE = ("seeded generator of DESIGN 4.2 files (1..20 nodes, 0..22 messages standard/extended incl. the limits of both id "
+        "ranges, 0..12 signals incl. multiplexer/multiplexed with shared start bits and the limits of start/size/multiplexer "
+        "value, signal names reused across messages, VAL_/CM_/SIG_VALTYPE_/BA_ for the four attributes in all spellings, "
+        "INT/HEX attribute values, ranges and defaults beyond 2^24 and 2^32 up to 2^53 (plain, '.0' and exponent spellings; "
+        "start values of wide signals, cycle and delay times), factors/offsets/min/max with up to 25 significant digits, "
+        "rounding boundaries and the ends of the exponent range, UTF-8 (2/3/4-byte) in units, comments, value texts and "
+        "string attributes, VAL_ values at the raw range limits of 1/63/64-bit signed and unsigned signals, "
+        "metadata for undeclared nodes/messages/signals, ignored forms, the pseudo message; in half of the files the "
+        "signal-level metadata lines of one signal name are consecutive across messages); each file compiled in the original "
         "order + every permutation of <= 4 messages / signals of a message / resolved metadata lines, 24 random ones above, 8 "
         "combined shuffles; plus out-of-class 'wild' files (duplicates, truncating sizes, non-integral or out-of-range VAL_ "
         "values, wrapping cycle times) for model = implementation only. non-trivial = the file has at least one compiled "
@@ -54,14 +72,21 @@ def run(res, replay=None):
         res, "compile", [res.seed, n_class, n_wild], "compile", RULE,
         ["the Gallina model Dbc/Compile.v is a faithful transcription of compile.go / messageid.go / database.go / "
          "sendtype.go: checked on every run by the differential comparison (sampled files and permutations)",
-         "the model starts from the parser's definitions (dbc.Parser.Defs(), dumped by harness/dbccommon/dump.go): the parser "
-         "is covered by C04/C12, not here; reordering is performed on the TEXT by the harness, so the run also exercises that "
-         "text-level reorderings of 4.2 are definition-level reorderings",
+         "the source text is the reference through the parser model Dbc/Parser.v (a faithful transcription of pkg/dbc's "
+         "parser/scanner/strconv use: proved round trip C04, tied to the code by the C04/C12 checks and, here, by comparing "
+         "its definitions with dbc.Parser.Defs() as dumped by harness/dbccommon/dump.go on the original order of every file "
+         "and every 32nd reordering); on the remaining reorderings the model starts from Parser.Defs(); reordering is "
+         "performed on the TEXT by the harness, so the run also exercises that text-level reorderings of 4.2 are "
+         "definition-level reorderings",
+         "the end-to-end theorems cover the source files of C04's proved class (wf_file / wf_lfile: plain layouts, ASCII "
+         "strings); UTF-8 strings and the other layouts of the generator are covered by the differential run only",
          "sort.Slice (pdqsort) returns a sorted permutation for a strict weak order (its contract); the model is insertion "
          "sort, identical for n <= 12 and equal by uniqueness of the sorted permutation under the class's distinct keys",
          "64-bit int/uint (amd64/arm64); float64->int64 conversion of VAL_ values is only specified for finite in-range "
          "values (the class: integral values); outside it the model mirrors amd64 (checked on the wild files)",
          "strings.ToLower is modelled on ASCII; the class requires ASCII GenMsgSendType values"],
         corr_name="generate.Compile = extracted model compile on every generated text (database field by field, warnings as "
-                  "a multiset of (kind, position)); canonical/denotes/warnings/permutation predicates on the implementation's output",
+                  "a multiset of (kind, position)); generate.Compile(text) = compile_text(text) (parser model ; compile model) "
+                  "with Parser.Defs() = the definitions the text denotes; canonical/denotes/warnings/permutation predicates "
+                  "on the implementation's output",
         timeout=1500 if res.tier == "quick" else 3400)
